@@ -395,7 +395,7 @@ Qed.
 Definition wf_seg (text : list chr) (s : seg) : Prop :=
   match s with
   | SText sc o e => 0 < sc /\ 0 <= o /\ o < e /\ e <= zlen text
-  | SIns sc o raw ilen iw => 0 < sc /\ 0 <= o /\ 0 < raw /\ 0 <= ilen
+  | SIns sc o txt ilen => 0 < sc /\ 0 <= o /\ 0 <= ilen
   | SPad sc None => 0 <= sc
   | SPad sc (Some o) => 0 <= sc /\ 0 <= o
   end.
@@ -403,13 +403,17 @@ Definition wf_seg (text : list chr) (s : seg) : Prop :=
 (* per byte of the line: the attribute the property demands
    - a text segment shows text[o:e]; character i occupies c_enc(i) bytes, all carrying the
      attribute of character i (rle_get_at attrs i, None past the end of the runs);
-   - inserted text (ellipsis) and a pad standing for half a wide character take the attribute
-     at their text offset (None at offset 0: "elif s.offs" is false there);
+   - inserted text (ellipsis) takes the attribute at its text offset (an insert whose text is
+     empty is treated as a pad); a pad standing for half a wide character takes the attribute
+     at its text offset (None at offset 0: "elif s.offs" is false there);
    - alignment padding (sc, None) carries None *)
 Definition seg_spec (text : list chr) (attrs : rle) (s : seg) : list attr :=
   match s with
   | SText _ o e => bytes_of (sub text o e) (map (rle_get_at attrs) (zrange' o e))
-  | SIns _ o _ ilen _ => repeat (rle_get_at attrs o) (Z.to_nat ilen)
+  | SIns sc o txt ilen =>
+      if rc_len txt =? 0 then
+        (if o =? 0 then repeat None (Z.to_nat sc) else repeat (rle_get_at attrs o) (Z.to_nat sc))
+      else repeat (rle_get_at attrs o) (Z.to_nat ilen)
   | SPad sc None => repeat None (Z.to_nat sc)
   | SPad sc (Some o) => if o =? 0 then repeat None (Z.to_nat sc) else repeat (rle_get_at attrs o) (Z.to_nat sc)
   end.
@@ -458,7 +462,7 @@ Lemma do_seg_spec isb text attrs ls s : enc_ok isb text -> nonneg attrs -> wf_se
     expand (l_attr ls') = expand (l_attr ls) ++ seg_spec text attrs s /\ ls_ok attrs ls'.
 Proof.
   intros Hok Hn Hwf (Hla & Hz & Haw). pose proof (enc_ok_nonneg _ _ Hok) as Henc. unfold do_seg.
-  destruct s as [sc o e | sc o raw ilen iw | sc [o|]]; cbn [wf_seg seg_check seg_sc seg_spec] in *.
+  destruct s as [sc o e | sc o txt ilen | sc [o|]]; cbn [wf_seg seg_check seg_sc seg_spec] in *.
   - destruct Hwf as (H1 & H2 & H3 & H4).
     destruct (sc <=? 0) eqn:E0; [lia|].
     destruct (e =? 0) eqn:E1; [lia|]. cbn [negb].
@@ -479,11 +483,21 @@ Proof.
         try assumption; try lia.
       eexists. split; [reflexivity|]. cbn [l_attr l_aw]. split; [|repeat split; assumption].
       now rewrite X2, X.
-  - destruct Hwf as (H1 & H2 & H3 & H4).
+  - destruct Hwf as (H1 & H2 & H4).
     destruct (sc <=? 0) eqn:E0; [lia|]. change (0 =? 0) with true. cbn [negb].
-    destruct (raw =? 0) eqn:E1; [lia|]. cbn [negb].
-    destruct (attrrange_point isb text attrs (l_aw ls) (l_attr ls) o ilen Hn Haw Hla Hz H2 H4) as (la & st' & E & X & N & Z & S).
-    rewrite E. eexists. split; [reflexivity|]. cbn [l_attr l_aw]. split; [exact X | repeat split; assumption].
+    destruct (rc_len txt =? 0) eqn:E1; cbn [negb].
+    + (* an insert with empty text behaves as a pad at its offset *)
+      destruct (o =? 0) eqn:E2; cbn [negb].
+      * destruct (sc =? 0) eqn:E3; [lia|]. cbn [negb].
+        eexists. split; [reflexivity|]. cbn [l_attr l_aw]. split; [|repeat split; try assumption].
+        -- rewrite expand_app. cbn [expand]. now rewrite app_nil_r.
+        -- apply nonneg_app. split; [assumption|]. apply nonneg_cons; cbn [snd]; split; [lia | constructor].
+        -- apply Forall_app. split; [assumption|]. constructor; [cbn [snd]; lia | constructor].
+      * destruct (sc =? 0) eqn:E3; [lia|]. cbn [negb].
+        destruct (attrrange_point isb text attrs (l_aw ls) (l_attr ls) o sc Hn Haw Hla Hz H2 ltac:(lia)) as (la & st' & E & X & N & Z & S).
+        rewrite E. eexists. split; [reflexivity|]. cbn [l_attr l_aw]. split; [exact X | repeat split; assumption].
+    + destruct (attrrange_point isb text attrs (l_aw ls) (l_attr ls) o ilen Hn Haw Hla Hz H2 H4) as (la & st' & E & X & N & Z & S).
+      rewrite E. eexists. split; [reflexivity|]. cbn [l_attr l_aw]. split; [exact X | repeat split; assumption].
   - destruct Hwf as [H1 H2]. destruct (sc <? 0) eqn:E0; [lia|]. change (0 =? 0) with true. cbn [negb].
     destruct (o =? 0) eqn:E1; cbn [negb].
     + destruct (sc =? 0) eqn:E2; cbn [negb].
@@ -519,20 +533,24 @@ Proof.
     rewrite X2, X1. cbn [flat_map]. now rewrite app_assoc.
 Qed.
 
+(* the lines as trim_line hands them to the segment loop *)
+Definition trimmed_lines (text : list chr) (maxcol : Z) (lines tl : list (list seg)) : Prop :=
+  Forall2 (fun l l' => trim_line text l maxcol = Ok l' /\ Forall (wf_seg text) l') lines tl.
+
 (* the lines of a whole layout, with the attribute walker shared between lines *)
-Lemma do_lines_spec isb text attrs maxcol lines : enc_ok isb text -> nonneg attrs ->
-  Forall (Forall (wf_seg text)) lines ->
+Lemma do_lines_spec isb text attrs maxcol lines tl : enc_ok isb text -> nonneg attrs ->
+  trimmed_lines text maxcol lines tl ->
   forall aw, aw_ok attrs aw ->
   exists lss, do_lines isb text attrs maxcol aw lines = Ok lss /\
     Forall2 (fun segs ls => expand (l_attr ls) = flat_map (seg_spec text attrs) segs /\
-                            nonneg (l_attr ls) /\ nozero (l_attr ls)) lines lss.
+                            nonneg (l_attr ls) /\ nozero (l_attr ls)) tl lss.
 Proof.
-  intros Hok Hn Hwf. induction Hwf as [|l r Hl Hr IH]; intros aw Haw.
+  intros Hok Hn Hwf. induction Hwf as [|l l' r r' [Ht Hl] Hr IH]; intros aw Haw.
   - exists []. split; [reflexivity | constructor].
-  - destruct (do_segs_spec isb text attrs l Hok Hn Hl (LS [] 0 0 aw)) as (ls1 & E1 & X1 & (N1 & Z1 & O1)).
+  - destruct (do_segs_spec isb text attrs l' Hok Hn Hl (LS [] 0 0 aw)) as (ls1 & E1 & X1 & (N1 & Z1 & O1)).
     { split; [constructor | split; [constructor | exact Haw]]. }
     destruct (IH (l_aw ls1) O1) as (lss & E2 & F2).
-    exists (ls1 :: lss). cbn [do_lines]. rewrite E1, E2. split; [reflexivity|].
+    exists (ls1 :: lss). cbn [do_lines]. rewrite Ht, E1, E2. split; [reflexivity|].
     constructor; [|exact F2]. split; [exact X1 | split; assumption].
 Qed.
 
@@ -560,14 +578,14 @@ Proof.
     inversion H; subst. constructor; [now apply (canvas_line_spec maxcol) | now apply IH].
 Qed.
 
-Lemma layout_rows_spec isb text attrs lines maxcol rows :
-  enc_ok isb text -> nonneg attrs -> Forall (Forall (wf_seg text)) lines ->
+Lemma layout_rows_spec isb text attrs lines tl maxcol rows :
+  enc_ok isb text -> nonneg attrs -> trimmed_lines text maxcol lines tl ->
   apply_text_layout isb text attrs lines maxcol = Ok rows ->
   Forall2 (fun segs row => (exists k, expand row = flat_map (seg_spec text attrs) segs ++ repeat None k) /\ nozero row)
-          lines rows.
+          tl rows.
 Proof.
   intros Hok Hn Hwf. unfold apply_text_layout.
-  destruct (do_lines_spec isb text attrs maxcol lines Hok Hn Hwf (0, 0)) as (lss & E & F).
+  destruct (do_lines_spec isb text attrs maxcol lines tl Hok Hn Hwf (0, 0)) as (lss & E & F).
   { exists attrs. apply aw_inv_init. }
   rewrite E. intro H.
   assert (Hnn : Forall (fun ls => nonneg (l_attr ls) /\ nozero (l_attr ls)) lss).
@@ -579,12 +597,12 @@ Proof.
 Qed.
 
 (* no ValueError from a well-formed layout *)
-Lemma layout_no_value_error isb text attrs lines maxcol :
-  enc_ok isb text -> nonneg attrs -> Forall (Forall (wf_seg text)) lines ->
+Lemma layout_no_value_error isb text attrs lines tl maxcol :
+  enc_ok isb text -> nonneg attrs -> trimmed_lines text maxcol lines tl ->
   exists lss, do_lines isb text attrs maxcol (0, 0) lines = Ok lss.
 Proof.
   intros Hok Hn Hwf.
-  destruct (do_lines_spec isb text attrs maxcol lines Hok Hn Hwf (0, 0)) as (lss & E & _).
+  destruct (do_lines_spec isb text attrs maxcol lines tl Hok Hn Hwf (0, 0)) as (lss & E & _).
   { exists attrs. apply aw_inv_init. }
   now exists lss.
 Qed.
